@@ -11,6 +11,8 @@ use std::time::Instant;
 #[derive(Clone, Debug)]
 enum Fault {
     MissingPath,
+    /// a path that does not exist and does not end in `.circom` is named instead of the target file
+    MissingOther(usize),
     DanglingSymlink,
     InvalidUtf8,
     VersionTooNew(usize),
@@ -33,6 +35,7 @@ impl Fault {
     fn class(&self) -> String {
         match self {
             Fault::MissingPath => "missing_path".into(),
+            Fault::MissingOther(k) => format!("missing_path:{}", MISSING_NAMES[*k]),
             Fault::DanglingSymlink => "dangling_symlink".into(),
             Fault::InvalidUtf8 => "invalid_utf8".into(),
             Fault::VersionTooNew(k) => format!("version_too_new:{}", TOO_NEW[*k].join(".")),
@@ -49,7 +52,7 @@ impl Fault {
     }
     fn expected_ids(&self) -> &'static [&'static str] {
         match self {
-            Fault::MissingPath | Fault::DanglingSymlink | Fault::InvalidUtf8 => &["P1000"],
+            Fault::MissingPath | Fault::MissingOther(_) | Fault::DanglingSymlink | Fault::InvalidUtf8 => &["P1000"],
             Fault::VersionTooNew(_) | Fault::VersionTooOld(_) => &["P1003"],
             Fault::Lexical(..) | Fault::Unmatched(..) | Fault::DroppedSemicolon(..) | Fault::SecondMainSameFile => &["P1000"],
             Fault::Statement(_, _, ids) => ids,
@@ -62,10 +65,13 @@ impl Fault {
     fn located(&self) -> bool {
         !matches!(
             self,
-            Fault::MissingPath | Fault::DanglingSymlink | Fault::InvalidUtf8 | Fault::VersionTooNew(_) | Fault::VersionTooOld(_) | Fault::TwoMainsTwoFiles
+            Fault::MissingPath | Fault::MissingOther(_) | Fault::DanglingSymlink | Fault::InvalidUtf8 | Fault::VersionTooNew(_) | Fault::VersionTooOld(_) | Fault::TwoMainsTwoFiles
         )
     }
 }
+
+/// Names of paths that do not exist (none ends in `.circom`; the last lies in a directory that does not exist).
+const MISSING_NAMES: [&str; 5] = ["zzmissing", "zzmissing.txt", "zzmissing.circom.bak", "zzmissing.", "zznodir/zzfile"];
 
 /// Versions outside the supported range 2.0.0 ..= 2.1.4 (each component above / below in turn).
 const TOO_NEW: [[&str; 3]; 7] = [["2", "1", "5"], ["2", "1", "40"], ["2", "2", "0"], ["2", "10", "0"], ["3", "0", "0"], ["3", "1", "2"], ["10", "0", "4"]];
@@ -114,7 +120,7 @@ fn apply(p: &GenProject, target: usize, fault: &Fault) -> Option<Vec<u8>> {
     let toks = &f.r.toks;
     let src = &f.r.src;
     match fault {
-        Fault::MissingPath | Fault::DanglingSymlink | Fault::TwoMainsTwoFiles => Some(src.clone().into_bytes()),
+        Fault::MissingPath | Fault::MissingOther(_) | Fault::DanglingSymlink | Fault::TwoMainsTwoFiles => Some(src.clone().into_bytes()),
         Fault::InvalidUtf8 => {
             let mut b = src.clone().into_bytes();
             let at = b.len() / 2;
@@ -265,6 +271,7 @@ fn case_in(ctx: &Ctx, p: &GenProject, t: &mut Tape, rec: &Rec, dir: &Path) -> Ve
     let f = &p.files[target];
     let ntok = f.r.toks.len();
     let mut faults: Vec<Fault> = vec![Fault::MissingPath, Fault::DanglingSymlink, Fault::InvalidUtf8];
+    faults.extend((0..MISSING_NAMES.len()).map(Fault::MissingOther));
     faults.extend((0..TOO_NEW.len()).map(Fault::VersionTooNew));
     faults.extend((0..TOO_OLD.len()).map(Fault::VersionTooOld));
     let positions: Vec<usize> = if ntok <= 40 {
@@ -313,6 +320,14 @@ fn case_in(ctx: &Ctx, p: &GenProject, t: &mut Tape, rec: &Rec, dir: &Path) -> Ve
         let mut named2: Vec<PathBuf> = p.named.iter().map(|i| fdir.join(&p.files[*i].rel)).collect();
         match fault {
             Fault::MissingPath => {}
+            Fault::MissingOther(k) => {
+                // the target is replaced on the command line by a path that does not exist
+                for n in named2.iter_mut() {
+                    if *n == tpath {
+                        *n = fdir.join(MISSING_NAMES[*k]);
+                    }
+                }
+            }
             Fault::DanglingSymlink => {
                 let _ = std::os::unix::fs::symlink(fdir.join("does-not-exist.circom"), &tpath);
             }
@@ -406,7 +421,7 @@ pub fn run(ctx: &Ctx) -> i32 {
     outcome.absorb(&known, fails);
     let faulted_runs: u64 = ["missing_path", "dangling_symlink", "invalid_utf8", "version_too_new", "version_too_old", "lexical_error", "unmatched_closer", "dropped_semicolon", "duplicate_parameter", "duplicate_definition", "two_mains_two_files", "second_main_same_file"]
         .iter()
-        .map(|c| stats.class_count(&format!("fault:{c}")))
+        .map(|c| stats.class_family_count(&format!("fault:{c}")))
         .sum();
     finish(
         ctx,
